@@ -605,7 +605,9 @@ func Index(s, substr string) int {
 		//    cutover to Rabin-Karp?
 		//  * We should skip this check if s is small
 		//
-		if bytealg.NativeIndex && n <= 32 && nonLetterASCII(substr) {
+		// NB: internal/bytealg.MaxLen is 31 on amd64 without AVX2 (longer
+		// needles take an AVX2-only code path there).
+		if bytealg.NativeIndex && n <= 31 && nonLetterASCII(substr) {
 			return bytealg.IndexString(s, substr)
 		}
 		// TODO: tune this
